@@ -251,6 +251,37 @@ def exc_site(lib, exc):
     return site
 
 
+class LibTimeout(BaseException):
+    """Raised by the watchdog when one library call does not return within its wall-clock budget."""
+
+
+class _Watchdog:
+    """Per-call termination guard (C13 'terminate'): SIGALRM after `seconds` of wall clock in the main thread.
+    A call that does not come back is reported as a violation instead of hanging the worker."""
+
+    def __init__(self, seconds=30.0):
+        self.seconds = seconds
+        self.active = False
+
+    def __enter__(self):
+        import signal
+        import threading
+        self.active = threading.current_thread() is threading.main_thread() and hasattr(signal, "setitimer")
+        if self.active:
+            def onalarm(signum, frame):
+                raise LibTimeout()
+            self._old = signal.signal(signal.SIGALRM, onalarm)
+            signal.setitimer(signal.ITIMER_REAL, self.seconds)
+        return self
+
+    def __exit__(self, *a):
+        if self.active:
+            import signal
+            signal.setitimer(signal.ITIMER_REAL, 0)
+            signal.signal(signal.SIGALRM, self._old)
+        return False
+
+
 class LibCalls:
     """All calls into validators/verifiers made by any simulated party go through call()."""
 
@@ -278,14 +309,18 @@ class LibCalls:
         f = self.fn(name)
         before = snapshot((args, kw)) if self.monitor_args else None
         import warnings as _w
-        with self.out, _w.catch_warnings():
-            if self.werror:
-                _w.simplefilter("error")
-            try:
-                v = f(*args, **kw)
-                o = Outcome(True, v)
-            except Exception as e:  # noqa: BLE001 - classified below
-                o = Outcome(False, exc=e)
+        try:
+            with self.out, _w.catch_warnings(), _Watchdog():
+                if self.werror:
+                    _w.simplefilter("error")
+                try:
+                    v = f(*args, **kw)
+                    o = Outcome(True, v)
+                except Exception as e:  # noqa: BLE001 - classified below
+                    o = Outcome(False, exc=e)
+        except LibTimeout:
+            run.violate(("C13",), "did-not-terminate", "%s did not return within 30 s of wall clock" % name, "did-not-terminate:" + name)
+            o = Outcome(False, exc=RuntimeError("timeout"))
         if self.monitor_args:
             after = snapshot((args, kw))
             if after != before:
@@ -399,7 +434,8 @@ class SimCrash(BaseException):
 
 
 _ERRNO = {"ENOENT": errno.ENOENT, "EACCES": errno.EACCES, "EIO": errno.EIO, "ENOSPC": errno.ENOSPC,
-          "EMFILE": errno.EMFILE, "EISDIR": errno.EISDIR}
+          "EMFILE": errno.EMFILE, "EISDIR": errno.EISDIR, "EAGAIN": errno.EAGAIN, "EDEADLK": errno.EDEADLK, "ENOLCK": errno.ENOLCK,
+          "EINTR": errno.EINTR, "EPERM": errno.EPERM, "EROFS": errno.EROFS}
 
 
 def oserror(code, path=None):
@@ -445,7 +481,17 @@ class SimFile:
         return True
 
     def fileno(self):
-        raise io.UnsupportedOperation("simulated file has no descriptor")
+        if self.closed:
+            raise ValueError("I/O operation on closed file")
+        fds = getattr(self.fs, "fds", None)
+        if fds is None:
+            raise io.UnsupportedOperation("simulated file has no descriptor")
+        fd = getattr(self, "_fd", None)
+        if fd is None or fds.get(fd) is not self:
+            self.fs.fd_counter[0] += 1
+            fd = self._fd = self.fs.fd_counter[0]
+            fds[fd] = self
+        return fd
 
     def tell(self):
         return self.pos
@@ -524,6 +570,9 @@ class SimFile:
         if self.closed:
             return
         self.closed = True
+        fds = getattr(self.fs, "fds", None)
+        if fds is not None and getattr(self, "_fd", None) is not None and fds.get(self._fd) is self:
+            del fds[self._fd]
         if self.writing:
             try:
                 self.fs._op("close", self.path)
@@ -673,7 +722,40 @@ class SimFS:
         fs = self
         fs.fds = {}
         real = {n: getattr(_os, n) for n in ("open", "fdopen", "write", "read", "close", "fsync", "ftruncate", "lseek", "fstat")}
-        counter = [100000]
+        counter = fs.fd_counter = [100000]
+
+        def sim_lock(fd, operation, *a):
+            """fcntl.flock / fcntl.lockf on a simulated file: granted, unless the fault plan says another holder has it
+            (EAGAIN for a non-blocking request; a blocking request on a held lock would wait for ever, which the plan
+            reports as EDEADLK the way lockf does)."""
+            f = fd if isinstance(fd, SimFile) else fs.fds.get(fd if isinstance(fd, int) else -1)
+            if f is None and hasattr(fd, "fileno") and not isinstance(fd, int):
+                try:
+                    f = fs.fds.get(fd.fileno())
+                except Exception:  # noqa: BLE001
+                    f = None
+            if f is None:
+                return real_lock[sim_lock_name[0]](fd, operation, *a)
+            fs.events.append(("lock", f.path))
+            fs._op("lock", f.path)
+            return None
+
+        try:
+            import fcntl as _fcntl
+            real_lock = {"flock": _fcntl.flock, "lockf": _fcntl.lockf}
+            sim_lock_name = ["flock"]
+
+            def sim_flock(fd, operation):
+                sim_lock_name[0] = "flock"
+                return sim_lock(fd, operation)
+
+            def sim_lockf(fd, operation, *a):
+                sim_lock_name[0] = "lockf"
+                return sim_lock(fd, operation, *a)
+            patcher.set(_fcntl, "flock", sim_flock)
+            patcher.set(_fcntl, "lockf", sim_lockf)
+        except ImportError:
+            pass
 
         def sim_open(path, flags, mode=0o777, *a, **kw):
             try:
